@@ -8,10 +8,10 @@ import sys
 import time
 from concurrent.futures import ThreadPoolExecutor
 
-from .core import REPO, VERIF, digest, mix
+from .core import REPO, VERIF, digest, mix, pretty
 
 PY = sys.executable
-CHUNK = 64
+CHUNK = 32
 DEFAULT_SEED = 20260923
 
 RUNS = {
@@ -195,7 +195,7 @@ def write_replay(prop, sc, res, cls, minimised):
         "how_to_replay": f"./check {prop} --replay {path}",
     }
     with open(path, "w") as f:
-        json.dump(doc, f, indent=1, ensure_ascii=False, default=repr)
+        f.write(pretty(json.loads(json.dumps(doc, default=repr)), depth=4) + "\n")
     return path
 
 
@@ -430,7 +430,7 @@ def write_evidence(prop, tier, seed, agg, results, wall_s, n_new, known_hit, ski
     }
     os.makedirs(os.path.join(VERIF, "evidence"), exist_ok=True)
     with open(os.path.join(VERIF, "evidence", f"{prop}.json"), "w") as f:
-        json.dump(ev, f, indent=1, ensure_ascii=False, default=repr)
+        f.write(pretty(json.loads(json.dumps(ev, default=repr)), depth=4) + "\n")
 
 
 def main(argv=None):
